@@ -52,3 +52,11 @@ func (n *RaftNode) VerifPending() int {
 	defer n.dataCommittedMu.RUnlock()
 	return len(n.DataCommittedC)
 }
+
+// VerifCancel ends the node the way a process kill does: the context is cancelled, no channel is
+// closed (Stop closes them while serveChannels may still be sending), nothing is flushed.
+func (n *RaftNode) VerifCancel() {
+	if n.cancelFn != nil {
+		n.cancelFn()
+	}
+}
